@@ -77,6 +77,18 @@ def specVals (useLong : Bool) (a : HArg) : Bytes :=
            then [b_possible ++ intercalateB [44, 32] (visiblePvNames a) ++ [93]] else []
   intercalateB (if useLong then [10] else [32]) (d ++ p)
 
+/-- `display_width(spec_vals)`: defaults are ASCII in the tie, possible-value names carry their own display width -/
+def specValsW (useLong : Bool) (a : HArg) : Nat :=
+  let d := if a.takesValue && !a.hideDefault && !a.defaults.isEmpty then some ((b_default ++ intercalateB [32] a.defaults ++ [93]).length) else none
+  let vis := a.pvs.filter (!·.hide)
+  let p := if !a.hidePossibleValues && !useLongPv useLong a && !a.pvs.isEmpty
+           then some (b_possible.length + (vis.map (·.w)).sum + 2 * (vis.length - 1) + 1) else none
+  match d, p with
+  | some x, some y => x + (if useLong then 0 else 1) + y
+  | some x, none => x
+  | none, some y => y
+  | none, none => 0
+
 /-! ### next-line decision (`will_args_wrap`, `arg_next_line_help`) -/
 
 /-- `taken as f32 / term_w as f32 > 0.40` for the magnitudes that occur (ratios with small denominators) -/
@@ -90,7 +102,7 @@ def forceNextLine (termW : Option Nat) (hW taken : Nat) : Bool :=
 
 def argNextLineHelp (cmdNextLine useLong : Bool) (termW : Option Nat) (a : HArg) (longest : Nat) : Bool :=
   if cmdNextLine || a.nextLineHelp || useLong then true
-  else forceNextLine termW (a.helpW + (specVals useLong a).length) (longest + tabWidth * 2)
+  else forceNextLine termW (a.helpW + specValsW useLong a) (longest + tabWidth * 2)
 
 def willArgsWrap (cmdNextLine useLong : Bool) (termW : Option Nat) (args : List HArg) (longest : Nat) : Bool :=
   (args.filter (shouldShowArg useLong)).any fun a => argNextLineHelp cmdNextLine useLong termW a longest
@@ -124,17 +136,17 @@ def subcmdPadding (nextLine : Bool) (sc : HSub) (longest : Nat) : Option Nat :=
 
 /-! ### the possible-values column of long help -/
 
-/-- `possible_vals.iter().filter(!hide).map(width).max().expect(..)`: `none` = the `expect` fails -/
+/-- `possible_vals.iter().filter(!hide).map(|f| display_width(f.get_name())).max().expect(..)`: `none` = the `expect` fails -/
 def pvLongest (a : HArg) : Option Nat :=
-  match visiblePvNames a with
+  match a.pvs.filter (!·.hide) with
   | [] => none
-  | n :: ns => some (ns.foldl (fun m x => max m x.length) n.length)
+  | p :: ps => some (ps.foldl (fun m x => max m x.w) p.w)
 
 /-- `longest - display_width(name)` for one listed value -/
 def pvPadding (a : HArg) (pv : PV) : Option Nat :=
   match pvLongest a with
   | none => none
-  | some l => checkedSub l pv.name.length
+  | some l => checkedSub l pv.w
 
 /-! ### one rendered section: what the tie compares with the real output -/
 
